@@ -92,6 +92,10 @@ def run(ctx):
             e, v = c[0], c[1]
             if e[0] == "discr":
                 continue     # which-variant tests of the en-passant option inside hash_without_ep
+            if e[0] == "bin" and e[1] == "Ne" and v == 0:
+                e, v = ("bin", "Eq", e[2], e[3]), 1          # `if a != b { return false }`
+            elif e[0] == "call" and e[1].endswith("PartialEq>::ne") and len(e[2]) == 2 and v == 0:
+                e, v = ("call", e[1][:-2] + "eq", e[2]), 1
             k = kernel(e)
             if k is None or v != 1:
                 ok = False
